@@ -300,7 +300,7 @@ def run(prog, check):
              'the endogenous block is rebuilt from the rewritten equations' if reb else
              'the rewritten equations never reach the endogenous block', 'any alias')
     # ---- R3 ----------------------------------------------------------------------------------------
-    init = P.methods.get('__init__')
+    init = flatten(prog, P.methods.get('__init__'))
     lists = [n.targets[0].attr for n in ast.walk(init.node) if isinstance(n, ast.Assign) and isinstance(n.targets[0], ast.Attribute)
              and isinstance(n.value, ast.List)]
     sw = Sweep(prog)
